@@ -151,6 +151,12 @@ def case_t2d(rng, tier):
         bay.calc_k0(silent=True)
         st = bay.tstiff2ds[0]
         ns = 3 * bay.m * bay.n
+        # the base-flange line may sit anywhere across the base and the flange (attributes eta_conn_base / eta_conn_flange)
+        if rng.random() < 0.5:
+            st.eta_conn_base = float(rng.uniform(-1, 1))
+        if rng.random() < 0.5:
+            st.eta_conn_flange = float(rng.uniform(-1, 1))
+        c.desc['eta_conn'] = [float(st.eta_conn_base), float(st.eta_conn_flange)]
         st.calc_k0(size=size, row0=ns, col0=ns, silent=True, finalize=True)
         Ks = st.k0.toarray()
         nb = st.base.get_size()
